@@ -171,6 +171,10 @@ def op_sequences(tier):
     A(("rdate",), ("rdate",), ("rdate",), ("exrule", 2), ("count",))
     A(("exrule", 2), ("exdate",), ("list",))
     A(("rrule", 2), ("exrule", 3), ("exdate",), ("list",))
+    # three members in one role: the merge heap has to re-order after one of them runs dry
+    A(("rrule", 1), ("rrule", 2), ("rrule", 2), ("list",))
+    A(("rdate",), ("rrule", 2), ("rrule", 2), ("count",))
+    A(("rrule", 2), ("exrule", 1), ("exrule", 2), ("exdate",), ("list",))
     # mutation after (partial) iteration
     A(("rrule", 2), ("list",), ("rdate",), ("list",))
     A(("rrule", 2), ("rdate",), ("count",), ("exdate",), ("count",))
